@@ -24,6 +24,10 @@
    Rows: [0; compressed sizes...] (or [1] / [2] when the stack does not open), then per
    operation [status; value; position_after+1 (0 = error); bytes...] as RunC11.gen_ops and,
    when status = 0, [77; log entries flattened]. *)
+From MLA Require Import Limit.
+From MLAGen Require Src.
+(* executable entry points: the production value of BINCODE_MAX_DESERIALIZE (the same in both flavours), file-local *)
+#[local] Instance RUN_LIMIT : Limit := MLAGen.Src.BINCODE_MAX_DESERIALIZE_prod.
 From MLA Require Import Base Stream EncLayer CompLayer RawLayer CompFailSafe CompLayerS Inst Run RunC11 RunFsComp.
 Open Scope N_scope.
 
